@@ -11,6 +11,11 @@ ODO = [("QuartzModel.Proofs.Odometer", t) for t in ["Odo.findForward_spec", "Odo
 # the loop's timer channel never carries a stale tick (old timer-channel semantics): obligation of everything that reasons about when ticks happen
 TIMERFACTS = [("QuartzModel.Theorems.TimerFacts", "Facts.timer_drained_after_interrupt")]
 
+# every successful queue mutation sends the interrupt token after the mutation, under the lock, with a fresh look at "started": obligations of
+# every property that promises that a job in the queue of a running scheduler gets fired (C05 itself, restart in C10, recovery in C15)
+WAKEFACTS = [("QuartzModel.Theorems.MissingWakeup", "Facts.missing_none_wakeup"), ("QuartzModel.Theorems.C05", "Wakeup.C05_facts_wf"),
+             ("QuartzModel.Theorems.RestartFacts", "Facts.loop_reschedule_sends_token")]
+
 SCHEDFACTS = [("QuartzModel.Theorems.SchedFacts", "Sched." + t) for t in ["validate_branches", "misfire_offer_nonblocking", "step_order", "classify_spec"]] + \
              [("QuartzModel.Theorems.C09Lin", "Sched.C09_lock_facts"), ("QuartzModel.Theorems.C09Lin", "Sched.C09_unlocked_are_reads"),
               ("QuartzModel.Theorems.MissingLocks", "Facts.missing_none_locks")]
@@ -21,13 +26,15 @@ COMPOSE = [("QuartzModel.Theorems.Compose", "Sched." + t) for t in [
     "parsed_cron_job_runs_only_at_matching_instants", "parsed_cron_job_never_early"]]
 
 THEOREMS = {
-    "C05": TIMERFACTS + [("QuartzModel.Theorems.MissingWakeup", "Facts.missing_none_wakeup")] + [("QuartzModel.Theorems.C05", "Wakeup." + t) for t in [
+    # (a job popped before its time must go back with its fire time untouched: the dispatch step's facts are obligations here too)
+    "C05": TIMERFACTS + [t for t in SCHEDFACTS if t[0] == "QuartzModel.Theorems.SchedFacts"] + [("QuartzModel.Theorems.MissingWakeup", "Facts.missing_none_wakeup"),
+                         ("QuartzModel.Theorems.RestartFacts", "Facts.loop_reschedule_sends_token")] + [("QuartzModel.Theorems.C05", "Wakeup." + t) for t in [
         "C05_facts_wf", "C05_invariant", "C05_parked_correct", "C05_never_lost", "C05_token_rereads", "C05_send_never_blocks", "C05_holds",
         "C05_lost_unbuffered", "C05_lost_without_send", "C05_lost_send_before", "C05_lost_without_reread", "C05_blocking_send_deadlocks"]] +
            [("QuartzModel.Proofs.WakeupLemmas", "Wakeup.inv_step"), ("QuartzModel.Proofs.WakeupLemmas", "Wakeup.inv_run")] +
            # a fire time beyond the largest representable time does not get ahead of the due jobs (the loop neither spins nor starves them)
            [("QuartzModel.Theorems.C04", "Sched." + t) for t in ["C04_saturates", "C04_saturated_not_due", "C04_saturated_never_spins"]],
-    "C15": TIMERFACTS + [("QuartzModel.Theorems.MissingFaults", "Facts.missing_none_faults")] + [("QuartzModel.Theorems.C15", "Faults." + t) for t in [
+    "C15": TIMERFACTS + WAKEFACTS + [("QuartzModel.Theorems.MissingFaults", "Facts.missing_none_faults")] + [("QuartzModel.Theorems.C15", "Faults." + t) for t in [
         "C15_facts_wf", "C15_facts_api", "C15_facts_dispatch", "C15_backoff_step", "C15_backoff", "C15_holds", "C15_backoff_fails_without_flag",
         "C15_interrupts_postpone_recovery", "C15_api_propagates", "C15_api_nil_only_if_all_ok", "C15_dispatch_after_pop", "C15_one_push_per_pop",
         "C15_iter_calls", "C15_no_double_fire", "C15_deadline_not_postponed", "C15_recovers",
@@ -60,7 +67,7 @@ THEOREMS = {
            # the pool model counts one dispatched job, retries included, as one occupancy of its worker / of the blocking loop:
            # the shape of executeWithRetries (no goroutine of its own) is an obligation here as well
            [("QuartzModel.Theorems.C13", "Sched.Retry.C13_facts")],
-    "C10": [("QuartzModel.Theorems.C10", "Lifecycle." + t) for t in [
+    "C10": WAKEFACTS + [("QuartzModel.Theorems.C10", "Lifecycle." + t) for t in [
         "C10_facts", "C10_start_idempotent", "C10_stop_idempotent", "C10_isStarted_latest", "C10_started_at_quiescence",
         "C10_cancel_eq_stop", "C10_restart", "C10_restart_unguarded_fails", "C10_cancel_start_race_unrepaired",
         "C10_wait_sound", "C10_wait_returns_at_zero", "C10_wait_independent", "C10_wait_reusable", "C10_waitgroup_reuse_hazard", "C10_ctx_cancelled_on_stop", "C10_isStarted_latest_code", "C10_restart_code"]] +
